@@ -167,9 +167,16 @@ impl ClientCfg {
 
 /// string classes of DESIGN §C04
 /// code points at the edges of the UTF-8 / UTF-16 encoding forms (none of them has a case mapping)
-pub const EDGE_CHARS: [char; 14] = ['\u{7F}', '\u{80}', '\u{7FF}', '\u{800}', '\u{D7FF}', '\u{E000}', '\u{FFFD}', '\u{FFFF}', '\u{10000}', '\u{10001}', '\u{FFFFF}', '\u{100000}', '\u{10FFFE}', '\u{10FFFF}'];
+pub const EDGE_CHARS: [char; 18] = ['\u{7F}', '\u{80}', '\u{7FF}', '\u{800}', '\u{D7FF}', '\u{E000}', '\u{FFFD}', '\u{FFFF}', '\u{10000}', '\u{10001}', '\u{FFFFF}', '\u{100000}', '\u{10FFFE}', '\u{10FFFF}', '\u{FEFF}', '\u{FFFE}', '\u{200B}', '\u{202E}'];
+
+/// strings with a meaning of their own for some tool, server or encoder (local-account shorthand, wildcards, a byte order
+/// mark in front, separators)
+pub const MAGIC_STRINGS: [&str; 16] = [".", "..", "\\", "@", ".\\", "localhost", "WORKGROUP", "-", "*", " ", "NT AUTHORITY", "$", "\u{FEFF}name", "\u{FEFF}", "a@b", "%s"];
 
 pub fn gen_string(s: &mut Src, max_units: usize) -> String {
+    if s.chance(10) {
+        return s.pick(&MAGIC_STRINGS).to_string();
+    }
     let class = s.below(11);
     let n = match s.below(6) {
         0 => 0,
